@@ -32,9 +32,124 @@ def _e2e(ck):
     e2e.check_cancel_cli(ck, pidnum=5)
 
 
+# ----------------------------------------------------------------------------
+# controlled clock (harness/exec_harness.py, run_history(clock=...)): the verdict must not depend on the wall-clock
+# instant of a poll.  Every step is stamped three times (submitted / first seen running / ended) with
+# round_datetime_seconds(datetime.now()); under the real clock a stamp falls into the last half second of a minute
+# once in 120 times, at a day / month / year end practically never.  A share of the generated histories (random
+# and exhaustive alike; both the direct driver and the real Conductor.monitor_study loop) therefore runs with the
+# engine's `datetime` name answering scripted instants that sit ON those boundaries.  Nothing else about a
+# history changes: model correspondence and every monitor must hold exactly as under the real clock, and an
+# exception escaping the poll is a failing input (exec_props.evaluate).  The clock is part of the stored case.
+CLOCK_SHARE = 0.3
+CLOCK_STARTS = [
+    "2023-03-14T09:59:59.500000",     # first instant that rounds up into the next minute (and hour)
+    "2023-03-14T10:17:59.999999",     # last microsecond of a minute
+    "2023-03-14T10:17:59.499999",     # last instant that rounds down (control)
+    "2023-07-01T23:59:59.700000",     # day roll-over
+    "2023-04-30T23:59:59.500000",     # month end (30 days)
+    "2023-12-31T23:59:59.900000",     # year end
+    "2023-02-28T23:59:59.600000",     # Feb 28 of a common year -> Mar 1
+    "2024-02-28T23:59:59.600000",     # Feb 28 of a leap year -> Feb 29
+    "2024-02-29T23:59:59.999999",     # leap day -> Mar 1
+    "2023-03-26T01:59:59.800000",     # naive local time across a DST switch instant (no tz arithmetic expected)
+    "2023-03-14T12:00:00.000000",     # nothing special (control)
+]
+CLOCK_POLL_S = [60, 60, 60, 3600, 86400, 1, 3, 7]      # 60 / 3600 / 86400: every poll starts on the same kind of boundary
+CLOCK_TICK_US = [0, 0, 1, 1000, 40000]                # advance per now() call inside a poll
+
+
+class _ClockPolicy:
+    def __init__(self, seed):
+        import random
+        self.rng = random.Random(seed * 104729 + 55)
+        self.asked = 0
+        self.used = {}
+
+    def __call__(self):
+        self.asked += 1
+        if self.rng.random() >= CLOCK_SHARE:
+            return None
+        spec = {"start": self.rng.choice(CLOCK_STARTS), "poll_s": self.rng.choice(CLOCK_POLL_S),
+                "tick_us": self.rng.choice(CLOCK_TICK_US)}
+        self.used[spec["start"]] = self.used.get(spec["start"], 0) + 1
+        return spec
+
+
+def round_sweep():
+    """Unit-level sweep of maestrowf.utils.round_datetime_seconds (the function behind every stamp): every second of
+    the minute x microsecond {0, 499999, 500000, 999999} in minute / hour / day / month / year / leap-day end
+    contexts.  Expected: the nearest whole second, halves up, i.e. input - microseconds (+ 1 s when >= 500000).
+    Returns (evaluations, [(iso input, what)])."""
+    import datetime as dt
+    from maestrowf.utils import round_datetime_seconds
+    ctx = [(2023, 3, 14, 10, 17), (2023, 3, 14, 9, 59), (2023, 7, 1, 23, 59), (2023, 4, 30, 23, 59),
+           (2023, 12, 31, 23, 59), (2023, 2, 28, 23, 59), (2024, 2, 28, 23, 59), (2024, 2, 29, 23, 59),
+           (2023, 3, 26, 1, 59), (1970, 1, 1, 0, 0), (2038, 1, 19, 3, 14)]
+    n, bad = 0, []
+    for (y, mo, d, h, mi) in ctx:
+        for sec in range(60):
+            for us in (0, 499999, 500000, 999999):
+                t = dt.datetime(y, mo, d, h, mi, sec, us)
+                want = t.replace(microsecond=0) + dt.timedelta(seconds=1 if us >= 500000 else 0)
+                n += 1
+                try:
+                    got = round_datetime_seconds(t)
+                    if got != want:
+                        bad.append((t.isoformat(), "returned %s, the nearest whole second is %s" % (got, want)))
+                except Exception as e:
+                    bad.append((t.isoformat(), "raised %s: %s" % (type(e).__name__, str(e)[:120])))
+    return n, bad
+
+
+def _clock_part(ck, policy):
+    import random
+    from harness import exec_harness as H
+    calls, edge = H.clock_stats()
+    n, bad = round_sweep()
+    ck.cov["controlled_clock"] = {
+        "histories_asked": policy.asked, "histories_under_controlled_clock": sum(policy.used.values()),
+        "share": CLOCK_SHARE, "start_instants": dict(sorted(policy.used.items())),
+        "now_calls_answered": calls, "of_them_in_last_half_second_of_a_minute": edge,
+        "round_datetime_seconds_sweep": {"evaluations": n, "wrong_or_raised": len(bad)}}
+    ck.cov["rule"] += (" A share (%d%%) of the generated histories runs under a CONTROLLED clock (the engine's `datetime` name "
+                       "answers scripted instants on minute / day / month / year / leap-day ends, a few seconds to a day "
+                       "apart per poll): same comparison, same monitors, the clock is stored with the case. "
+                       "round_datetime_seconds is additionally swept over every second of the minute x microsecond "
+                       "{0, 499999, 500000, 999999} in %d end-of-period contexts against `nearest whole second, halves up` "
+                       "-- a harness-side unit check that supports the correspondence run; it is not a theorem."
+                       % (int(CLOCK_SHARE * 100), n // 240))
+    if bad:
+        # a wrong stamp helper matters to C05 when it makes the poll crash: show it on a one-step history whose
+        # clock stands at the offending instant
+        iso, what = bad[0]
+        node = [{"parents": [], "children": [], "scheduled": True, "has_restart": False, "rlimit": 0}]
+        c = H.run_history(node, {"throttle": 0, "attempts": 1, "dry": False}, random.Random(0), max_polls=3, fair_after=0,
+                          clock={"start": iso, "poll_s": 60, "tick_us": 0})
+        c["origin"] = "clock-sweep"
+        if c["end"] == "exc":
+            ck.violation("round_datetime_seconds(%s) %s (%d of %d swept instants fail); a one-step study polled at that "
+                         "instant ends with %s and no verdict" % (iso, what, len(bad), n, c["polls"][-1]["status"]), X.strip(c))
+        else:
+            ck.mismatch("round_datetime_seconds(%s) %s (%d of %d swept instants fail)" % (iso, what, len(bad), n), None, "")
+
+
 def run(ck):
-    return X.run_exec(ck, 5, BIAS, tiny=TINY, extra=_e2e)
+    from harness import exec_harness as H
+    policy = _ClockPolicy(ck.seed)
+    H.CLOCK_POLICY = policy
+
+    def extra(ck):
+        H.CLOCK_POLICY = None       # the end-to-end part and the unit history choose their clocks themselves
+        _clock_part(ck, policy)
+        _e2e(ck)
+
+    try:
+        return X.run_exec(ck, 5, BIAS, tiny=TINY, extra=extra)
+    finally:
+        H.CLOCK_POLICY = None
 
 
 def replay(ck, path):
+    # a stored history carries its controlled clock on the first poll input ("clock"): run_history re-creates it
     return X.replay_exec(ck, 5, path)
